@@ -270,6 +270,10 @@ impl EntryOut {
 
 /// Checked product in u128; `None` when it does not even fit there.
 pub fn checked_product(shape: &[usize]) -> Option<u128> {
+    // A zero dimension makes the tensor empty whatever the other dimensions are.
+    if shape.iter().any(|&d| d == 0) {
+        return Some(0);
+    }
     let mut p: u128 = 1;
     for &d in shape {
         p = p.checked_mul(d as u128)?;
